@@ -1,5 +1,5 @@
 (** C06 — built-in functions enforce their signatures.  Statements only. *)
-From JP Require Import Base F64 Value Sig Functions Interp Gen.Tables Spec.SigSpec Proofs.CmpProof Proofs.SigProof Proofs.CallProof Proofs.SigE2E.
+From JP Require Import Base F64 Value Sig Functions Interp Gen.Tables Spec.SigSpec Proofs.CmpProof Proofs.SigProof Proofs.CallProof Proofs.SigE2E Proofs.ResultTypeProof.
 
 (** The registration list extracted from the source on this run is the
     specification's table: the 26 names, each bound to a struct whose declared
@@ -85,6 +85,24 @@ Theorem C06_no_signature_error_after_validation : forall ev b sg args off,
   ev_clean ev -> validate sg args off = Ok tt -> sig_error (call_builtin ev b sg args off) = false.
 Proof. exact no_sig_error_after_validation. Qed.
 Print Assumptions C06_no_signature_error_after_validation.
+
+(** The result of an accepted call has the function's declared result type: for each of the 26
+    built-ins, whenever the specification's table accepts the arguments (which hold no
+    expression references inside their data, and the evaluator handed to the by-functions
+    returns data), the value returned is of the type in the third column of that table —
+    for all arguments, evaluators and offsets. *)
+Theorem C06_result_has_declared_type : forall ev b sg args off r o,
+  ev_data ev -> Forall data_arg args -> spec_verdict (name_of b) args = SVAccept ->
+  call_builtin ev b sg args off = Ok (r, o) ->
+  match obj_get spec_table (name_of b) with Some ss => has_stype (s_result ss) r | None => false end = true.
+Proof. exact builtin_result_type. Qed.
+Print Assumptions C06_result_has_declared_type.
+
+(** ... where [name_of] is the name under which the generated registration list binds that implementation. *)
+Theorem C06_registered_under_their_specification_names :
+  forallb (fun '(name, st, sg) => match obj_get struct_table st with Some b => str_eqb (name_of b) name | None => false end) gen_registry = true.
+Proof. exact registry_names. Qed.
+Print Assumptions C06_registered_under_their_specification_names.
 
 (** Calling an unregistered name is the unknown-function error at the call's offset. *)
 Theorem C06_unknown_function : forall n rt d off name args o vs o1,
